@@ -4,6 +4,7 @@ import (
 	"crypto/sha256"
 	"encoding/json"
 	"fmt"
+	"github.com/bnb-chain/tss-lib/v2/tss"
 	"os"
 	"sort"
 	"strings"
@@ -180,4 +181,18 @@ func withTimeoutD(d time.Duration, f func() string) string {
 	case <-time.After(d):
 		return "err hang"
 	}
+}
+
+// refusedBeforeStore: the error of an update call that was refused before the message was stored (parsing, sender
+// or ValidateBasic): it carries the round the party happens to be in, but it is not a verdict of that round's checks
+func refusedBeforeStore(e *tss.Error) bool {
+	if e == nil {
+		return false
+	}
+	for _, m := range []string{"received nil msg", "invalid sender", "ValidateBasic", "sender index too great", "proto:", "unmarshal", "cannot parse"} {
+		if strings.Contains(e.Error(), m) {
+			return true
+		}
+	}
+	return false
 }
